@@ -341,6 +341,15 @@ func genNoti(t *rapid.T, thr int64, small bool) *Noti {
 		n.Star = rapid.IntRange(0, 2).Draw(t, "star") == 0
 		n.Near = rapid.IntRange(0, 3).Draw(t, "near") == 0
 	}
+	if useOddNames {
+		// a delete path that ends in an empty element (what splitting "a/b/" gives): it names a child
+		// called "", which no leaf has - it removes nothing, and it stays what the caller wrote
+		for i := range n.Deletes {
+			if len(n.Deletes[i]) > 0 && rapid.IntRange(0, 3).Draw(t, "trailing-empty") == 0 {
+				n.Deletes[i] = append(n.Deletes[i], gn.Elem{Name: ""})
+			}
+		}
+	}
 	// a path consisting of nothing at all is a hostile shape that belongs to C12
 	if !n.Atomic && len(n.Prefix) == 0 && n.Origin == "" {
 		for i := range n.Deletes {
